@@ -49,7 +49,7 @@ def main():
                 # does the check of another property anchored in the same files report it?
                 files = set(re.findall(r'^\+\+\+ b/(\S+)', open(os.path.join(d, 'patch.diff')).read(), re.M))
                 others = [json.loads(l) for l in open(os.path.join(ROOT, 'properties.jsonl'))]
-                cands = [o['id'] for o in others if o['id'] != prop and files & set(o['anchors']['files'])
+                cands = [o['id'] for o in others if o['id'] != prop and (files & set(o['anchors']['files']) or o['id'] == 'C10')
                          and os.path.exists(os.path.join(ROOT, 'tools', 'props', o['id'] + '.py'))]
                 pref = ['C10', 'C09', 'C01', 'C08', 'C07', 'C16']
                 cands.sort(key=lambda c: (pref.index(c) if c in pref else 99, c))
